@@ -1,6 +1,7 @@
 package main
 
 import (
+	"regexp"
 	"fmt"
 	"go/types"
 	"os"
@@ -105,6 +106,39 @@ func (x *Exec) report(prop string, obls []*Obligation, reports []*FuncReport, kn
 			lines = append(lines, fmt.Sprintf("ERROR property=%s contract of %s is vacuous: %s", prop, r.Key, r.Vacuity))
 		}
 	}
+	// A known finding is recorded under the obligation's name, which contains the ordinal of the return statement it
+	// was raised at. An unrelated edit that adds or removes a return statement renumbers the others: failed
+	// obligations that match a listed finding up to that ordinal are accepted as that finding as long as there are not
+	// more of them than listed findings of the same clause (a further violation of the clause is still reported).
+	renumbered := map[string]*KnownFinding{}
+	{
+		used := map[*KnownFinding]bool{}
+		for _, o := range failed {
+			if kf := matchKnown(known, prop, o.Name); kf != nil {
+				used[kf] = true
+			}
+		}
+		avail := map[string][]*KnownFinding{}
+		for i := range known {
+			k := &known[i]
+			if k.Property == prop && k.Status == "known" && !used[k] {
+				avail[normObl(k.Obligation)] = append(avail[normObl(k.Obligation)], k)
+			}
+		}
+		want := map[string][]*Obligation{}
+		for _, o := range failed {
+			if o.Status != "engine-error" && matchKnown(known, prop, o.Name) == nil {
+				want[normObl(o.Name)] = append(want[normObl(o.Name)], o)
+			}
+		}
+		for n, os := range want {
+			if ks := avail[n]; len(ks) > 0 && len(os) <= len(ks) {
+				for i, o := range os {
+					renumbered[o.Name] = ks[i]
+				}
+			}
+		}
+	}
 	engineErr := false
 	for _, o := range failed {
 		if o.Status == "engine-error" {
@@ -113,6 +147,9 @@ func (x *Exec) report(prop string, obls []*Obligation, reports []*FuncReport, kn
 			continue
 		}
 		kf := matchKnown(known, prop, o.Name)
+		if kf == nil {
+			kf = renumbered[o.Name]
+		}
 		if kf != nil && kf.Status == "known" {
 			knownHit[o.Name] = true
 			lines = append(lines, fmt.Sprintf("KNOWN-FINDING: property=%s %s — %s", prop, o.Name, kf.What))
@@ -209,6 +246,14 @@ func relPaths(root string, ps []string) []string {
 }
 
 func round3(f float64) float64 { return float64(int(f*1000+0.5)) / 1000 }
+
+var returnOrdinalRe = regexp.MustCompile(`@return\d+`)
+var dupSuffixRe = regexp.MustCompile(`~\d+$`)
+
+// normObl: an obligation name with the ordinal of its return statement (and the duplicate counter) wildcarded.
+func normObl(n string) string {
+	return returnOrdinalRe.ReplaceAllString(dupSuffixRe.ReplaceAllString(n, ""), "@return*")
+}
 
 func matchKnown(known []KnownFinding, prop, obl string) *KnownFinding {
 	for i := range known {
